@@ -569,6 +569,54 @@ def run(chk):
             ok = isinstance(ge, (ast.GeneratorExp, ast.ListComp)) and isinstance(ge.elt, ast.Call) and dotted(ge.elt.func) == "isinstance" and last_attr(ge.elt.args[1]) == "JoinPoint" and not ge.generators[0].ifs
     chk.ob("O1.9", "is_joinpoint: all entries are join points", ok, ij if ij is not None else CA, "")
 
+    # ---- O1.10 every allocated (client, task) pair is run exactly once ------------------------------------------------------------------------------
+    chk.rule("O1.10", "the worker's row view pairs every client with its own non-empty entry at the index; the executor adapter creates exactly one executor per (client, task allocation) "
+             "of the row, unconditionally, and awaits all of them; one parameter source per task", 6,
+             "a client's allocation is dropped (task runs with fewer clients) or started twice; a failed/late client is not awaited before the join point")
+    tk = drv.methods(CA).get("tasks")
+    ok = False
+    if tk is not None:
+        loops_ = [n for n in walk_body(tk) if isinstance(n, ast.For) and is_self_attr(n.iter, "allocations")]
+        if loops_:
+            Lr = loops_[0]
+            av = Lr.target.id
+            entry = [n for n in ast.walk(Lr) if isinstance(n, ast.Assign) and u(n.value) == f"{av}['tasks'][{params_of(tk)[1]}]"]
+            apps = [n for n in ast.walk(Lr) if isinstance(n, ast.Call) and last_attr(n.func) == "append" and n.args and isinstance(n.args[0], ast.Call) and last_attr(n.args[0].func) == "ClientAllocation"]
+            if entry and apps:
+                ev_ = u(entry[0].targets[0])
+                a0 = apps[0].args[0]
+                gs_ = guards(apps[0], stop=Lr)
+                ats_ = [u(x) for t, pol in gs_ if pol for x in (t.values if isinstance(t, ast.BoolOp) and isinstance(t.op, ast.And) else [t])]
+                ok = [u(x) for x in a0.args] == [f"{av}['client_id']", ev_] and f"{ev_} is not None" in ats_ and all(x in (f"{ev_} is not None", params_of(tk)[2]) for x in ats_) and not _has_jump(Lr)
+    chk.ob("O1.10", "row view: (client id, its own entry) for every non-empty entry", ok, tk if tk is not None else CA, "")
+    AD = drv.cls("AsyncIoAdapter")
+    arun = drv.methods(AD).get("run")
+    if arun is None:
+        raise AnchorMissing("AsyncIoAdapter.run")
+    al = [n for n in walk_body(arun) if isinstance(n, ast.For) and is_self_attr(n.iter, "task_allocations")]
+    if not al:
+        raise AnchorMissing("loop over self.task_allocations in AsyncIoAdapter.run")
+    AL_ = al[0]
+    exs = [n for n in ast.walk(AL_) if isinstance(n, ast.Call) and last_attr(n.func) == "AsyncExecutor"]
+    aw = [n for n in ast.walk(AL_) if isinstance(n, ast.Call) and u(n.func) == "awaitables.append"]
+    ok = len(exs) == 1 and len(aw) == 1 and not guards(exs[0], stop=AL_) and not guards(aw[0], stop=AL_) and not _has_jump(AL_) and isinstance(AL_.target, ast.Tuple)
+    chk.ob("O1.10", "one executor per allocation of the row, unconditionally", ok, AL_, f"executors={len(exs)} awaitables.append={len(aw)}")
+    if exs and isinstance(AL_.target, ast.Tuple):
+        cidv, tav = [t.id for t in AL_.target.elts]
+        ldefs_ = {n.targets[0].id: n.value for n in ast.walk(AL_) if isinstance(n, ast.Assign) and len(n.targets) == 1 and isinstance(n.targets[0], ast.Name)}
+        a = exs[0].args
+        ok = u(a[0]) == cidv and u(source.inline_node(a[1], ldefs_)) == f"{tav}.task" and u(a[5]) == "self.cancel" and u(a[6]) == "self.complete" and u(a[4]) == "self.sampler"
+        chk.ob("O1.10", "executor gets this client's id, this allocation's task and the worker's shared sampler / cancel / complete", ok, exs[0], short(exs[0], 120))
+        sf_ = [n for n in ast.walk(AL_) if isinstance(n, ast.Call) and last_attr(n.func) == "schedule_for"]
+        ok = bool(sf_) and u(sf_[0].args[0]) == tav and "params_per_task" in u(sf_[0].args[1])
+        chk.ob("O1.10", "schedule computed for this allocation with the task's (shared) parameter source", ok, sf_[0] if sf_ else AL_, "")
+        ps_ = [n for n in ast.walk(AL_) if isinstance(n, ast.Call) and last_attr(n.func) == "operation_parameters"]
+        ok = len(ps_) == 1 and any(pol and "not in params_per_task" in u(t) for t, pol in guards(ps_[0], stop=AL_))
+        chk.ob("O1.10", "one parameter source per task (created on first sight only)", ok, ps_[0] if ps_ else AL_, "")
+    ga = [n for n in walk_body(arun) if isinstance(n, ast.Call) and dotted(n.func) == "asyncio.gather"]
+    ok = len(ga) == 1 and [u(x) for x in ga[0].args] == ["*awaitables"] and isinstance(source.parent(ga[0]), ast.Await)
+    chk.ob("O1.10", "all executors of the row are awaited together", ok, ga[0] if ga else arun, "")
+
     # ---- O1.8 advisory: executor honours the flags ---------------------------------------------------------------------------------------------
     loops = [n for n in walk_body(ex_call) if isinstance(n, ast.AsyncFor)]
     if loops:
@@ -619,6 +667,9 @@ VARIANTS = [
     V("index advanced twice", "break", _D, "        self.next_task_index += 1\n        self.logger.debug(\"Worker[%d] is at task index", "        self.next_task_index += 2\n        self.logger.debug(\"Worker[%d] is at task index", "O1.9"),
     V("seed m1: client id looked up in the worker-keyed map", "break", _D, "                worker_id = self.clients_per_worker[client_id]\n                if worker_id not in self.workers_completed_current_step:", "                if client_id not in self.workers_completed_current_step:", "O1.4"),
     V("seed m3: no completion signal for any", "break", _D, "            elif any_task_completes_parent:\n                self.logger.info(", "            elif False:\n                self.logger.info(", "O1.6"),
+    V("row view drops the first client", "break", _D, "        for allocation in self.allocations:\n            tasks_at_index = allocation[\"tasks\"][task_index]", "        for allocation in self.allocations[1:]:\n            tasks_at_index = allocation[\"tasks\"][task_index]", "O1.10"),
+    V("executor only for the first allocation", "break", _D, "            awaitables.append(final_executor())", "            if not awaitables:\n                awaitables.append(final_executor())", "O1.10"),
+    V("executor gets the wrong client id", "break", _D, "            async_executor = AsyncExecutor(\n                client_id, task,", "            async_executor = AsyncExecutor(\n                self.parent_worker_id, task,", "O1.10"),
     # preserving
     V("barrier with >=", "keep", _D, "        if self.currently_completed == len(self.workers):", "        if self.currently_completed >= len(self.workers):"),
     V("barrier operands swapped", "keep", _D, "        if self.currently_completed == len(self.workers):", "        if len(self.workers) == self.currently_completed:"),
